@@ -145,6 +145,9 @@ enum {
   X(void, jv_g1_clear_cofactor_ref, (void* out, const void* inA)) \
   X(void, jv_g2_clear_cofactor_ref, (void* out, const void* inA)) \
   X(void, jv_decompose_x, (uint64_t* out4, const uint8_t* k32)) \
+  X(size_t, jv_wnaf_table_bytes, (int grp, int window)) \
+  X(void, jv_wnaf_table_build, (int grp, int window, void* tbl, const void* baseA)) \
+  X(void, jv_wnaf_table_mul, (int grp, int window, void* out, void* tbl, const uint8_t* k32, int recoded)) \
   X(void, jv_decompose_x_reuse, (uint64_t* out4, const uint8_t* kprev32, const uint8_t* k32)) \
   X(void, jv_gt_pow_nodiv_width, (void* out, const void* in, const uint8_t* k40, int width)) \
   X(void, jv_g1_scale_z, (void* out, const void* in, const uint8_t* lambda48_le)) /* another Jacobian representative of the same point */ \
